@@ -2,10 +2,14 @@
 package main
 
 import (
+	"bufio"
 	"context"
 	"fmt"
+	"io"
 	"sync"
+	"sync/atomic"
 
+	"github.com/spf13/afero"
 	"github.com/yandex/pandora/core"
 	"net"
 	"net/http"
@@ -544,6 +548,88 @@ func idStress(res *vkit.Result, format string, preload bool, total int) {
 	res.Eval(vkit.JSON(c), true)
 }
 
+// ---------- (7) recycled samples ----------
+
+// recycledSamples: the real phout aggregator hands written samples back to a pool from which the
+// guns take their next ones. A target that answers 200 for a while and then drops every
+// connection without a response: the lines of the dropped requests must carry net ≠ 0 and
+// protocol code 0, not a status left over from an earlier exchange.
+func recycledSamples(res *vkit.Result, instances, good, total int) {
+	c := map[string]any{"check": "recycled samples", "instances": instances, "answered": good, "requests": total}
+	var served atomic.Int64
+	rt, err := vkit.NewRawTarget(func(conn net.Conn, _ int64) {
+		br := bufio.NewReader(conn)
+		for {
+			_ = conn.SetReadDeadline(time.Now().Add(5 * time.Second))
+			req, err := http.ReadRequest(br)
+			if err != nil {
+				return
+			}
+			_, _ = io.Copy(io.Discard, req.Body)
+			if served.Add(1) > int64(good) {
+				return // connection dropped without a response
+			}
+			_, _ = conn.Write([]byte("HTTP/1.1 200 OK\r\nContent-Length: 2\r\n\r\nok"))
+		}
+	})
+	if err != nil {
+		res.Inconclusive(true, "raw target: %v", err)
+		return
+	}
+	defer rt.Close()
+	ammo := vkit.WriteMem([]byte("/a t1\n/b t2\n/c t3\n/d t4\n/e t5\n"))
+	defer vkit.RemoveMem(ammo)
+	out := vkit.WriteMem(nil)
+	defer vkit.RemoveMem(out)
+	ec, err := vkit.DecodePools(map[string]any{"pools": []any{map[string]any{"id": "p",
+		"ammo":   map[string]any{"type": "uri", "file": ammo, "limit": total},
+		"result": map[string]any{"type": "phout", "destination": out, "id": true, "flush-time": "20ms"},
+		"gun":    map[string]any{"type": "http", "target": rt.Addr, "dial": map[string]any{"timeout": "2s"}},
+		"rps":    map[string]any{"type": "const", "ops": 1500, "duration": "60s"}, "startup": map[string]any{"type": "once", "times": instances}}}})
+	if err != nil {
+		res.Inconclusive(true, "pool rejected: %v", err)
+		return
+	}
+	rr := vkit.RunEngine(ec, nil, 120*time.Second)
+	if rr.Err != nil || rr.Hang || rr.WaitHang {
+		res.Violate("C10/recycled/run", fmt.Sprintf("run with a target that stops answering: err=%v hang=%v", rr.Err, rr.Hang || rr.WaitHang), c)
+		return
+	}
+	data, _ := afero.ReadFile(vkit.Fs(), out)
+	lines := strings.Split(strings.TrimSuffix(string(data), "\n"), "\n")
+	failed, stale, okWrong := 0, 0, 0
+	example := ""
+	for _, l := range lines {
+		cols := strings.Split(l, "\t")
+		if len(cols) != 12 {
+			res.Violate("C10/recycled/line", fmt.Sprintf("not a phout line: %q", l), c)
+			return
+		}
+		netc, _ := strconv.Atoi(cols[10])
+		proto, _ := strconv.Atoi(cols[11])
+		switch {
+		case netc != 0:
+			failed++
+			if proto != 0 {
+				stale++
+				example = l
+			}
+		case proto != 200:
+			okWrong++
+			example = l
+		}
+	}
+	if len(lines) != total {
+		res.Violate("C10/recycled/count", fmt.Sprintf("%d requests, %d lines", total, len(lines)), c)
+	}
+	if stale > 0 || okWrong > 0 {
+		res.Violate("C10/recycled/stale-code", fmt.Sprintf("%d of %d failed exchanges were written with a protocol code other than 0, %d answered ones with another code than 200; e.g. %q", stale, failed, okWrong, example), c)
+	}
+	res.Count("recycled_lines", int64(len(lines)))
+	res.Count("recycled_failed_lines", int64(failed))
+	res.Eval(vkit.JSON(c), failed > 0 && failed < len(lines))
+}
+
 func main() {
 	vkit.Fs()
 	res := vkit.NewResult("exhaustive tables: every HTTP status 200…599 through the http (and connect, http over TLS) guns with 1–8 instances; failure kinds (refused, reset, close before response, response-header timeout, short body, garbage status line); tag/auto-tag settings × URI path shapes; every gRPC status 0…16 plus 17 and 99 against the documented mapping; scenario guns (HTTP: scenario.step-name, gRPC: scenario.call-tag) with multiplicities; distinct = distinct sub-checks; all non-trivial")
@@ -558,6 +644,8 @@ func main() {
 	tags(res)
 	grpcCodes(res)
 	httpScenario(res)
+	recycledSamples(res, 4, 150, 400)
+	recycledSamples(res, 1, 60, 120)
 	for rep := 0; rep < vkit.N(3, 30); rep++ {
 		idStress(res, "uri", rep%2 == 1, 60000)
 		idStress(res, "http/json", rep%2 == 0, 60000)
